@@ -7,7 +7,7 @@ Require Import EV.model.Cfg EV.model.Chan EV.proofs.ChanP EV.gen.Facts.
 (* the configuration of the channel model as read off the source by tools/gen_facts.py; the shape facts say that
    the functions the model's atomic steps stand for still have the modelled structure *)
 Definition chan_cfg : ccfg := {| setcb_atomic := chan_setcb_atomic && chan_receiver_locked |}.
-Lemma C10_cfg_ok : cfg_ok chan_cfg /\ chan_local_receive_shape_ok = true /\ chan_local_close_order_ok = true /\ chan_setcb_handles_concurrent_close = true /\ chan_handlers_ok = true /\ loss_finished_receiving_ok = true /\ chan_close_shape_ok = true /\ to_io_single_write = true /\ wshape_atomic popen_write_shape = true /\ wshape_atomic socket_write_shape = true /\ read_loops_exact = true /\ from_io_exact = true /\ mc_receive_queue_ok = true.
+Lemma C10_cfg_ok : cfg_ok chan_cfg /\ chan_local_receive_shape_ok = true /\ chan_local_close_order_ok = true /\ chan_setcb_handles_concurrent_close = true /\ chan_handlers_ok = true /\ loss_finished_receiving_ok = true /\ chan_close_shape_ok = true /\ to_io_single_write = true /\ wshape_atomic popen_write_shape = true /\ wshape_atomic socket_write_shape = true /\ read_loops_exact = true /\ from_io_exact = true /\ mc_receive_queue_ok = true /\ execmodel_primitives_ok = true.
 Proof. repeat split; reflexivity. Qed.
 Definition C10_C : cfg_ok chan_cfg := proj1 C10_cfg_ok.
 
